@@ -2,7 +2,10 @@
 
 Proved (coq/Props/C10.v): totality of the byte-level decoders after the fixes
 N12a/N12b/N20 - ast.Unescape and the simple-column reader end in a value or an
-error for ALL byte strings / line lists; the pre-fix models are refuted.
+error for ALL byte strings / line lists; the pre-fix models are refuted.  Also
+(added after seeding): CheckDecl's row test followed by the arity-indexed row
+loop of symbols.desugarOneDecl never indexes out of range (desugar_rows_total,
+front_decl_total), tied to the code by part D.
 Correspondence: outcome (value + bytes / error / recovered panic) of the real Go
 decoders against the model evaluated inside Coq, exhaustive over short strings.
 NOT proved: the ANTLR runtime, the visitor's type assertions, analysis and the
@@ -417,7 +420,7 @@ def run(ck):
             for isb in (False, True):
                 ucases.append((bytes(t), isb, "exhaustive"))
                 nexh += 1
-    for _ in range(ck.n(2000, 30000) if "A" in parts else 0):
+    for _ in range(ck.n(1200, 30000) if "A" in parts else 0):
         ucases.append((gen_unescape(rng), rng.random() < 0.5, "random"))
     ck.log("A: %d unescape cases" % len(ucases))
     uouts = ck.run_go("c10_unescape", [{"b": b64(s), "bytes": isb} for s, isb, _ in ucases])
@@ -425,7 +428,7 @@ def run(ck):
     for (s, isb, _), o in zip(ucases, uouts):
         uterms.append(cq_unescape(s, isb, o["out"]) if "out" in o else cq_unescape(s, isb, {"k": "panic"}))
     ck.log("A: go done, judging in coq")
-    uverd = ck.run_coq(PID, "judge_unescape", uterms, shard=max(400, len(uterms) // 12 + 1), tag="u")
+    uverd = ck.run_coq(PID, "judge_unescape", uterms, shard=max(400, len(uterms) // 4 + 1), tag="u")      # few shards: start-up of coqc (loading ZArith) dominates
     ukinds = {"val": 0, "err": 0, "panic": 0}
     udis = 0
     for (s, isb, src), o, v in zip(ucases, uouts, uverd):
@@ -457,7 +460,7 @@ def run(ck):
         for t in itertools.product(SC_EXH, repeat=n):
             scases.append(("exhaustive", ("\n".join(t) + ("\n" if n else "")).encode()))
             nsc_exh += 1
-    for _ in range(ck.n(2000, 20000) if "B" in parts else 0):
+    for _ in range(ck.n(1200, 20000) if "B" in parts else 0):
         shape, d = gen_sc(rng)
         if not big_ok and any(len(tok) > 6 and tok.lstrip(b"-+").isdigit() for tok in d.split()):
             continue
@@ -478,7 +481,7 @@ def run(ck):
         sterms.append(cq_sc(d, o["out"]))
         sidx.append(i)
     ck.log("B: go done, judging in coq")
-    sverd = ck.run_coq(PID, "judge_sc", sterms, shard=max(200, len(sterms) // 12 + 1), tag="s")
+    sverd = ck.run_coq(PID, "judge_sc", sterms, shard=max(200, len(sterms) // 6 + 1), tag="s")
     sdis = 0
     for i, t, v in zip(sidx, sterms, sverd):
         if v == 0:
@@ -501,7 +504,7 @@ def run(ck):
 
     # ---------------- D. bound rows of a declaration: CheckDecl's row test, the row loop of desugarOneDecl
     #                    and the analysis pipeline vs the model (coq/Front/DeclRows.v)
-    dcases, dexh = gen_decl_cases(rng, ck.quick, ck.n(600, 12000) if "D" in parts else 0)
+    dcases, dexh = gen_decl_cases(rng, ck.quick, ck.n(400, 12000) if "D" in parts else 0)
     for c in corpus:
         if c["kind"] == "decl":
             dcases.insert(0, dict(c["case"], shape="corpus"))
@@ -526,7 +529,7 @@ def run(ck):
             dstats["row_len_vs_arity"]["shorter" if len(r) < c["ar"] else "equal" if len(r) == c["ar"] else "longer"] += 1
         dterms.append(cq_decl(c, o))
         didx.append(i)
-    dverd = ck.run_coq(PID, "judge_decl", dterms, shard=max(400, len(dterms) // 8 + 1), tag="d")
+    dverd = ck.run_coq(PID, "judge_decl", dterms, shard=max(400, len(dterms) // 3 + 1), tag="d")
     ddis = 0
     for i, t, v in zip(didx, dterms, dverd):
         if v == 0:
@@ -624,7 +627,10 @@ def run(ck):
         "samples": [ucases[-1][0].decode("latin-1"), scases[-1][1].decode("latin-1"), dcases[-1]["src"]] + [s.get("text", "") for s in samples[:3]],
     }
     return ck.finish(cov, assumptions=[
-        "PARTIAL: theorems cover ast.Unescape and the simple-column reader only (hand-written models coq/Front/*.v, tied to the Go code by differential runs)",
+        "PARTIAL: theorems cover ast.Unescape, the simple-column reader and the bound rows of a declaration (CheckDecl's row test + the row loop of "
+        "symbols.desugarOneDecl) only (hand-written models coq/Front/*.v, tied to the Go code by differential runs)",
+        "the bound-row model takes the outcome of the recursive desugaring of a referenced unary predicate as the class of the entry (theorems quantify over all classes); "
+        "the generator of part D knows the class from how it wrote the reference (declared u / undeclared / the predicate itself) and checks that the parser produced the rows it wrote",
         "the reader model takes strconv.Atoi, fmt.Sscanf, parse.PredicateName and the decoding of a body line as a table of total functions (theorem quantifies over all tables); the harness fills the table from the real functions",
         "bufio.Scanner's 64 KiB token limit is not modelled (theorems hold for every list of lines)",
         "ANTLR runtime, visitor type assertions, analysis, engine: fuzzed only (not a proof)",
@@ -659,6 +665,14 @@ def replay(ck, path):
         v = ck.run_coq(PID, "judge_sc", [cq_sc(data, o["out"])])[0] if "out" in o else 2
         print("replay sc: impl %s, verdict %d" % (o.get("out", o).get("k"), v))
         bad |= v != 0
+    elif kind == "decl":
+        c = rep["case"]
+        o = ck.run_go("c10_decl", [{"src": c["src"], "pred": c["pred"]}])[0]
+        v = ck.run_coq(PID, "judge_decl", [cq_decl(c, o["out"])])[0] if "out" in o and decl_structure_ok(c, o["out"]) else 2
+        print("replay decl: CheckDecl %s, CheckAndDesugar %s, pipeline %s, verdict %d" % (
+            o.get("out", {}).get("check_errs"), o.get("out", {}).get("direct"), o.get("out", {}).get("pipe"), v))
+        bad |= v != 0
+        kind = "unit"
     o = replay_cases(ck, [(kind, data)])[0]
     print("replay stages: %s" % json.dumps(o))
     bad |= o.get("what") in ("panic", "timeout", "crash")
@@ -672,17 +686,24 @@ META = {
     "text": "PARTIAL. Machine-checked theorems (coq/Props/C10.v) about byte-level Gallina models in which every Go slice index, re-slice and "
             "make() is an explicit partial step with a Panic outcome: ast.Unescape/unescapeCharPrefix and the simple-column reader "
             "(readHeader, readPred, ReadInto) return a value or an error for ALL byte strings / line lists and all behaviours of the library "
-            "functions they call (unescape_total, unescape_char_prefix_progress, sc_read_total, sc_read_bytes_total); the models of the code "
+            "functions they call (unescape_total, unescape_char_prefix_progress, sc_read_total, sc_read_bytes_total); the bound rows of a declaration - the row test of "
+            "analysis.CheckDecl followed by the arity-indexed row loop of symbols.desugarOneDecl - never index out of range for ANY declaration, any "
+            "descriptors and any outcome of the recursive desugaring of referenced predicates (desugar_rows_total, front_decl_total, type_bound_total; "
+            "a checker that skips the row test for synthetic() declarations is refuted); the models of the code "
             "before fixes N12a/N12b/N20 are refuted by `\\u`, an empty body line, a negative and a 2^32 fact count. The models are tied to the "
             "Go code on every run by comparing outcome (value+bytes / error class / recovered panic) on generated inputs, exhaustively for all "
-            "strings of length <= 3 (thorough: 4) over a 16-byte alphabet and all fact files of <= 3 (4) lines over 10 lines. "
+            "strings of length <= 3 (thorough: 4) over a 16-byte alphabet, all fact files of <= 3 (4) lines over 10 lines, and declarations of arity "
+            "0..3 x every descriptor atom analysis treats specially x bound rows of every length around the arity (CheckDecl's row errors, "
+            "symbols.CheckAndDesugar called directly, and the analysis pipeline against the model). "
             "Everything else the property names - the ANTLR runtime, the visitor's type assertions, analysis with bounds checking and "
-            "evaluation of parser-produced trees - is NOT proved: it is exercised by a fuzz loop (grammar-based generator of Mangle source, "
+            "evaluation of parser-produced trees - is NOT proved: it is exercised by a fuzz loop (grammar-based generator of Mangle source incl. a declaration "
+            "zoo: special descriptor atoms in accepted and odd shapes x odd bound rows, "
             "token/byte mutations, truncations, random bytes; each stage under recover(), a fact limit and a per-case deadline). The fuzz loop "
             "supports the search for a failing input; it is not a proof.",
     "note": "Proof level applies to the two decoders only (models hand-written, correspondence sampled + exhaustive on short inputs; library "
             "functions strconv/fmt/url/parser enter the reader model as an arbitrary table). Parser, analysis and engine: runtime fuzzing only "
-            "(about 20k inputs quick, millions thorough), no coverage guidance, no claim of absence of panics. desugar_rows_total (DESIGN) not built. "
+            "(about 20k inputs quick, millions thorough), no coverage guidance, no claim of absence of panics. Known findings with probes: N23, N24, N110 (deferred() without mode), N111 (recursive deferred predicate does not "
+            "terminate), N112 (fn:float:sum on a list of a wide union), N113 (source synthetic() declaration with several rows, recursive predicate). "
             "Fatal runtime errors (stack exhaustion, OOM) cannot be recovered and are reported as crashes if they occur.",
     "technique": "Coq 8.16 theorems over hand-written Gallina models of the byte-level decoders + differential outcome comparison Go vs model "
                  "inside coqc (vm_compute) + recover()/deadline fuzz loop over parse, analysis and evaluation (runtime search, not proof)",
